@@ -78,11 +78,12 @@ type c06cfg struct {
 }
 
 type c06case struct {
-	Kind string   `json:"kind"` // "uniq" | "roundtrip"
-	Recs []c06rec `json:"recs"`
-	Cfg  c06cfg   `json:"cfg"`
-	Reps int      `json:"reps"`
-	Text bool     `json:"text,omitempty"` // round trip: records travel between the tools as text headers
+	Kind string    `json:"kind"` // "uniq" | "roundtrip"
+	Recs []c06rec  `json:"recs"`
+	Cfg  c06cfg    `json:"cfg"`
+	Reps int       `json:"reps"`
+	Text bool      `json:"text,omitempty"` // round trip: records travel between the tools as text headers
+	X    *c06xcase `json:"x,omitempty"`    // kind "cli": command-level case (zz_verif_c06x_test.go)
 }
 
 // weights an already merged record contributes (sum == its count)
@@ -145,7 +146,9 @@ type c06class struct {
 	Cat     string
 	Count   int
 	Stats   map[string]int
-	Members int // number of input records
+	Members int  // number of input records
+	PreMrg  bool // a member already carried a merged_k map
+	NAReal  bool // a member has the literal NA string as value of k
 }
 
 func c06key(seq, cat string) string { return seq + "|" + cat }
@@ -172,12 +175,14 @@ func c06model(recs []c06rec, cfg c06cfg) map[string]*c06class {
 			switch rc.M {
 			case 0, 3:
 				cl.Stats[c06na] += rc.N
+				cl.NAReal = cl.NAReal || rc.M == 3
 			case 1:
 				cl.Stats["u"] += rc.N
 			case 2:
 				for v, w := range c06mergedMap(rc.N) {
 					cl.Stats[v] += w
 				}
+				cl.PreMrg = true
 			}
 		}
 	}
@@ -423,6 +428,9 @@ func (x *c06ctx) mode(cfg c06cfg) string {
 }
 
 func c06caseString(c c06case) string {
+	if c.X != nil {
+		return c06xcaseString(*c.X)
+	}
 	var b strings.Builder
 	for i, rc := range c.Recs {
 		if i > 0 {
@@ -513,10 +521,18 @@ func (x *c06ctx) checkUniq(site string, out obiseq.BioSequenceSlice, c c06case, 
 			viol("count")
 		}
 		if cfg.Merge {
+			// what the class is made of is part of the key: a defect of the conversion of already merged
+			// records must not hide behind one of the plain accounting (and conversely)
+			tag := ""
+			if cl.PreMrg {
+				tag = ":merged-input"
+			} else if cl.NAReal {
+				tag = ":literal-NA-value"
+			}
 			if o.Err != "" {
-				viol("merged-map-missing")
+				viol("merged-map-missing" + tag)
 			} else if c06statsString(o.Stats) != c06statsString(cl.Stats) {
-				viol("merged-map")
+				viol("merged-map" + tag)
 			}
 		}
 	}
@@ -638,7 +654,9 @@ func (x *c06ctx) evalRoundTrip(c c06case) {
 }
 
 func (x *c06ctx) eval(c c06case) {
-	if c.Kind == "roundtrip" {
+	if c.Kind == "cli" && c.X != nil {
+		x.evalX(c)
+	} else if c.Kind == "roundtrip" {
 		x.evalRoundTrip(c)
 	} else {
 		x.evalUniq(c)
@@ -716,7 +734,6 @@ func c06batches(n int) []int {
 	}
 	return out
 }
-
 
 // record alphabets
 func c06alphabet(name string) []c06rec {
@@ -906,7 +923,14 @@ func c06enumerate(r *verifkit.Result, thorough bool, visit func(k, j int, blk st
 	if only != "" {
 		r.Cap("C06_ONLY=" + only + " (debug filter)")
 	}
-	for n := 0; n <= nmax && !stop; n++ {
+	// the command-level cases (real option parser, real executables) come after the inputs of at most 2
+	// records of every block and before the big cross products on 3 and more records
+	xdone := false
+	for n := 0; n <= nmax+1 && !stop; n++ {
+		if (n == 3 || n == nmax+1) && !xdone {
+			xdone = true
+			k, stop = c06xenumerate(r, thorough, k, only, visit)
+		}
 		for _, blk := range blocks {
 			if n < blk.Nmin || n > blk.Nmax || stop || !strings.HasPrefix(blk.Name, only) {
 				continue
@@ -984,6 +1008,8 @@ func c06child(t *testing.T) {
 	c06init()
 	r := verifkit.New("C06")
 	x := &c06ctx{r: r}
+	c06x.bin = os.Getenv("C06_BIN")
+	c06x.tmp = os.Getenv("TMPDIR")
 	final := os.Getenv("C06_RESULT")
 	lastPath := os.Getenv("C06_LAST")
 	var from c06pos
@@ -1049,7 +1075,7 @@ func c06child(t *testing.T) {
 		}
 		if j == 0 {
 			r.Count("multisets", 1)
-			if len(c.Recs) >= 2 {
+			if len(c.Recs) >= 2 || (c.X != nil && len(c.X.Recs) >= 2 && len(c.X.Recs) <= 3) {
 				r.Sample(c)
 			}
 		}
@@ -1195,8 +1221,17 @@ func TestVerifC06(t *testing.T) {
 
 	replay := r.ReplayCase() != nil
 	if !replay && os.Getenv("C06_ONLY") == "" && os.Getenv("C06_DRY") == "" {
-		for _, c := range []string{"runs_memory", "runs_disk", "runs_with_a_merge", "runs_dropping_a_singleton", "roundtrips_with_a_split"} {
+		for _, c := range []string{"runs_memory", "runs_disk", "runs_with_a_merge", "runs_dropping_a_singleton", "roundtrips_with_a_split",
+			"runs_cli_parser", "runs_cli_binary", "cli_runs_with_2+_merge_keys", "cli_runs_with_2+_categories", "cli_runs_with_na_value_option",
+			"cli_runs_with_a_merge", "cli_roundtrips_with_a_split", "cli_demerge_with_a_split", "cli_demerge_without_any_map", "cli_binary_runs_on_several_files"} {
 			r.RequireNonVacuous(c)
+		}
+	}
+	// the executables of the tree under test (shared by the shards of a run)
+	binDir := ""
+	if os.Getenv("C06_DRY") == "" {
+		if binDir, err = c06xbinaries(r, base); err != nil {
+			t.Fatalf("C06 harness: %v", err)
 		}
 	}
 	var from c06pos
@@ -1216,7 +1251,7 @@ func TestVerifC06(t *testing.T) {
 			env = append(env, e)
 		}
 		env = append(env, "C06_CHILD=1", "C06_FROM="+string(fb), "C06_SKIP="+string(sb), "C06_RESULT="+resPath,
-			"C06_LAST="+lastPath, "TMPDIR="+tmp, "VERIF_OUT="+resPath+".tmp")
+			"C06_LAST="+lastPath, "TMPDIR="+tmp, "VERIF_OUT="+resPath+".tmp", "C06_BIN="+binDir)
 		hard := 3600.0 * 3
 		if deadline > 0 {
 			left := deadline - time.Since(start).Seconds()
@@ -1274,6 +1309,9 @@ func TestVerifC06(t *testing.T) {
 			mode = "disk"
 		}
 		site := "uniq/" + mode
+		if last.Case.X != nil {
+			site = last.Case.X.site()
+		}
 		r.Eval(1)
 		r.Violate(site+"/crash:"+fn, fmt.Sprintf("%s: the process dies: %s", c06caseString(last.Case), excerpt), last.Case)
 		if replay {
